@@ -104,13 +104,39 @@ class PendingComp(PendingExprGeneric[_CompNode]):
         for comp in self.node.generators:
             self.get_comp_target_names(comp.target)
 
-        self.nsp.comp_stack.append(self)
+    def _iter_fields(self):
+        generators = self.node.generators
+        # the iterable of the first `for` is evaluated in the enclosing scope:
+        # the target names don't shadow there
+        first_iter = yield generators[0].iter
 
-    def get_result(self) -> expr:
+        self.nsp.comp_stack.append(self)
+        for field_name in self.node._fields:
+            if field_name == "generators":
+                continue
+            # elt / key / value
+            self.converted_dict[field_name] = yield getattr(self.node, field_name)
+
+        converted_generators = self.converted_dict["generators"] = []
+        for index, comp in enumerate(generators):
+            converted_target = yield comp.target
+            if index == 0:
+                converted_iter = first_iter
+            else:
+                converted_iter = yield comp.iter
+            converted_ifs = []
+            for _if in comp.ifs:
+                converted_ifs.append((yield _if))
+            converted_generators.append(
+                comprehension(
+                    target=converted_target,
+                    iter=converted_iter,
+                    ifs=converted_ifs,
+                    is_async=comp.is_async,
+                )
+            )
         assert self.nsp.comp_stack[-1] is self
         self.nsp.comp_stack.pop()
-
-        return super().get_result()
 
     def get_comp_target_names(self, target):
         """
